@@ -409,6 +409,9 @@ func (ep *errProv) walkCall(call *ssa.Call, idx int, v ssa.Value, seen map[ssa.V
 		}
 	case ep.scope(callee):
 		add("callee", core.FnName(callee), callee)
+	case path == "context" && callee.Name() == "Cause":
+		// the reason recorded by whoever cancelled: any error at all, not the context's own Canceled / DeadlineExceeded
+		add("foreign", "context.Cause", callee)
 	case path == "context":
 		add("ctx", callee.Name(), nil)
 	default:
